@@ -72,6 +72,7 @@ type Case struct {
 	Crash   *CrashPlan   `json:"crash,omitempty"`
 	Final   bool         `json:"final"` // drain + read every key at the end (after all clients finished)
 	Reopen  bool         `json:"reopen,omitempty"` // instead: Close with pending flushes, reopen at once, read every key
+	BaseTs  uint64       `json:"base_ts,omitempty"` // a table holding one foreign key at this version is planted before the first Open: timestamps continue above it
 }
 
 // CrashPlan selects crash images of a recording run to recover.
@@ -247,6 +248,10 @@ func GenSeq(seed uint64, prop string, p SeqParams) *Case {
 	c.Sim = genSim(&r)
 	c.Keys = pickKeys(&r, 2+r.Intn(7))
 	c.Configs = []Cfg{genCfg(&r, p.Small || r.Intn(3) > 0)}
+	if r.Intn(4) == 0 {
+		// start above a digit-count boundary or at a very large timestamp
+		c.BaseTs = []uint64{8, 9, 98, 99, 997, 9999, 99999997, 1 << 40, 999999999999, 1<<62 - 200}[r.Intn(10)]
+	}
 	vg := &valGen{client: 0}
 	n := p.MinTxns + r.Intn(p.MaxTxns-p.MinTxns+1)
 	if r.Intn(4) > 0 && n > 40 {
